@@ -187,7 +187,11 @@ class Shaper:
                 self.expr(s['e'], out)
             return out + ['!']
         if k == 'throw':
-            return ['!']
+            # `throw sub_protocol(...)` inside the verdict-carrying try block: the call still happens before the exit
+            out = []
+            if s.get('e'):
+                self.expr(s['e'], out)
+            return out + ['!']
         if k == 'decl':
             out = []
             for v in s['v']:
